@@ -338,7 +338,7 @@ Section VarVM.
     induction n as [n IH] using lt_wf_ind.
     destruct n as [|n]; [intros st rho room s base pre post top r _ _ _ _ _ Hr; discriminate|].
     intros st rho room s base pre post top r Hinv Hwf Hi Hc Hn Hr.
-    destruct st as [e|i e|e|cnd t el|cnd b].
+    destruct st as [e|i e|e|cnd t el|cnd t|cnd b].
     - (* x := e *)
       cbn [P.stmt_code P.wf_stmt P.is_expr_stmt P.run_stmt P.sneed P.ndecls Nat.add] in *.
       apply andb_true_iff in Hwf. destruct Hwf as [_ Hwf].
@@ -448,6 +448,73 @@ Section VarVM.
           replace (length pre + (length cc + 2 + length ct + 2 + length ce)) with (length Pp + (length ct + 4) + length ce) by lia.
           reflexivity.
         * intros f. rewrite <- Nat.add_assoc, Hr1, <- HP. replace (1 + n2 + f) with (S (n2 + f)) by lia. rewrite Hs1. exact (Hr2 f).
+    - (* if without else: the else-branch is a lone Nil *)
+      pose proof (vm_inv_globals_ok rho _ s Hinv) as Hg.
+      rewrite PF.wf_SIf1 in Hwf. apply andb_true_iff in Hwf. destruct Hwf as [Hwc Hwt].
+      rewrite PF.code_SIf1 in *. rewrite PF.sneed_SIf1 in Hn. rewrite PF.run_SIf1 in Hr.
+      cbn [P.ndecls Nat.add P.is_expr_stmt] in *.
+      destruct (F.cexp base cnd) as [cc kc] eqn:Ec.
+      destruct (P.block_code (length rho) (base + length kc) t) as [ct kt] eqn:Et. cbn [fst snd] in *.
+      set (offF := (F.nlenN ct + 4)%N) in *.
+      assert (HoffF : N.to_nat offF = length ct + 4) by (unfold offF, F.nlenN; rewrite N2Nat.inj_add, Nat2N.id; reflexivity).
+      assert (Hlen : length (cc ++ [opPopJumpForwardIfFalse; offF] ++ ct ++ [opJumpForward; 3%N] ++ [opNil]) =
+                     length cc + 2 + length ct + 2 + 1) by (rewrite !app_length; cbn [length]; lia).
+      assert (Hic : instr = pre ++ fst (F.cexp base cnd) ++ ([opPopJumpForwardIfFalse; offF] ++ ct ++ [opJumpForward; 3%N] ++ [opNil] ++ post))
+        by (rewrite Ec; cbn [fst]; rewrite Hi, <- !app_assoc; reflexivity).
+      assert (Hkc : consts_at base (snd (F.cexp base cnd))) by (rewrite Ec; exact (consts_l kc kt base Hc)).
+      destruct (vm_scalar tabs c below frames free defers is_main s rho Hg cnd base pre _ [] Hwc Hic Hkc ltac:(cbn [length]; lia)) as [n1 Hr1].
+      rewrite Ec in Hr1. cbn [fst] in Hr1. unfold outcome_of in Hr1.
+      destruct (F.sev rho cnd) as [vc|xc].
+      2:{ inversion Hr; subst r. exists n1, s. exact Hr1. }
+      set (Pp := pre ++ cc).
+      assert (HP : length Pp = length pre + length cc) by (unfold Pp; apply app_length).
+      assert (Hc1 : instr = Pp ++ opPopJumpForwardIfFalse :: offF :: (ct ++ [opJumpForward; 3%N] ++ [opNil] ++ post))
+        by (rewrite Hi; unfold Pp; rewrite <- !app_assoc; reflexivity).
+      assert (Hs1 : forall f, runs (S f) (length Pp) [inj vc] s =
+                              runs f (if F.struthy vc then length Pp + 2 else length Pp + (length ct + 4)) [] s).
+      { intros f.
+        rewrite (step_popjump tabs c below frames free defers is_main s f (length Pp) [] (inj vc) (F.struthy vc) opPopJumpForwardIfFalse);
+          [|rewrite Hc1; apply at0|auto|apply truthy_inj].
+        assert (E : nth (length Pp + 1) instr 0%N = offF) by (rewrite Hc1; apply at1).
+        rewrite E, HoffF. change (opPopJumpForwardIfFalse =? 12)%N with true. cbn iota.
+        destruct (F.struthy vc); reflexivity. }
+      destruct (F.struthy vc) eqn:Etr.
+      + (* the block, followed by the jump over the Nil *)
+        set (Q := Pp ++ [opPopJumpForwardIfFalse; offF]).
+        assert (HQ : length Q = length Pp + 2) by (unfold Q; rewrite app_length; reflexivity).
+        assert (Hit : instr = Q ++ fst (P.block_code (length rho) (base + length kc) t) ++ ([opJumpForward; 3%N] ++ [opNil] ++ post))
+          by (rewrite Et; cbn [fst]; rewrite Hi; unfold Q, Pp; rewrite <- !app_assoc; reflexivity).
+        assert (Hkt : consts_at (base + length kc) (snd (P.block_code (length rho) (base + length kc) t)))
+          by (rewrite Et; exact (consts_r kc kt base Hc)).
+        destruct (vm_block n (IH n ltac:(lia)) t rho room s (base + length kc) Q _ r Hinv Hwt Hit Hkt ltac:(lia) Hr) as [n2 [s2 Hr2]].
+        rewrite Et in Hr2. cbn [fst] in Hr2. rewrite HQ in Hr2.
+        destruct r as [[rho' v]|x].
+        * destruct Hr2 as [Hinv2 Hr2].
+          exists (n1 + (1 + (n2 + 1))), s2. split; [exact Hinv2|]. intros f.
+          rewrite <- Nat.add_assoc, Hr1, <- HP.
+          replace (1 + (n2 + 1) + f) with (S (n2 + S f)) by lia. rewrite Hs1, Hr2.
+          assert (Hj : instr = (Q ++ ct) ++ opJumpForward :: 3%N :: ([opNil] ++ post))
+            by (rewrite Hi; unfold Q, Pp; rewrite <- !app_assoc; reflexivity).
+          assert (HQt : length (Q ++ ct) = length Pp + 2 + length ct) by (rewrite app_length, HQ; reflexivity).
+          rewrite (step_jump tabs c below frames free defers is_main s2 f (length Pp + 2 + length ct) [inj v]); [|rewrite Hj, <- HQt; apply at0].
+          assert (E : nth (length Pp + 2 + length ct + 1) instr 0%N = 3%N) by (rewrite Hj, <- HQt; apply at1).
+          rewrite E, Hlen. change (N.to_nat 3) with 3.
+          replace (length pre + (length cc + 2 + length ct + 2 + 1)) with (length Pp + 2 + length ct + 3) by lia.
+          reflexivity.
+        * exists (n1 + (1 + n2)), s2. intros f.
+          rewrite <- Nat.add_assoc, Hr1, <- HP. replace (1 + n2 + f) with (S (n2 + f)) by lia. rewrite Hs1. exact (Hr2 f).
+      + (* the condition is false: Nil *)
+        inversion Hr; subst r. clear Hr.
+        set (Q := Pp ++ [opPopJumpForwardIfFalse; offF] ++ ct ++ [opJumpForward; 3%N]).
+        assert (HQ : length Q = length Pp + (length ct + 4)) by (unfold Q; rewrite !app_length; cbn [length]; lia).
+        assert (Hnil : instr = Q ++ opNil :: post) by (rewrite Hi; unfold Q, Pp; rewrite <- !app_assoc; reflexivity).
+        exists (n1 + (1 + 1)), s. split; [exact Hinv|]. intros f.
+        rewrite <- Nat.add_assoc, Hr1, <- HP. replace (1 + 1 + f) with (S (S f)) by lia. rewrite Hs1, <- HQ.
+        rewrite (step_push tabs c below frames free defers is_main s f (length Q) [] opNil VNil);
+          [|rewrite Hnil; apply at0|auto|pose proof (need_pos cnd); cbn [length]; lia].
+        rewrite Hlen, HQ.
+        replace (length pre + (length cc + 2 + length ct + 2 + 1)) with (S (length Pp + (length ct + 4))) by lia.
+        reflexivity.
     - (* for *)
       rewrite PF.wf_SWhile in Hwf. apply andb_true_iff in Hwf. destruct Hwf as [Hwc Hwb].
       cbn [P.ndecls Nat.add P.is_expr_stmt] in *.
